@@ -55,6 +55,8 @@ fn main() {
                 }
                 if n > 1 {
                     println!("MULTI {} {} {} {}", name, owner, ident, n);
+                } else {
+                    println!("THIN {} {} {} {}", name, owner, ident, n);
                 }
             }
             for it in &file.items {
